@@ -1,17 +1,19 @@
 (* Lemmas on finite sums over a commutative ring (Section variables + ring_theory hypothesis) and on the
    triplet scatter of Defs.v. *)
-From Coq Require Import List Arith Bool Lia Ring Permutation.
+From Coq Require Import List Arith Bool Lia Ring Permutation Morphisms Setoid.
 From BV Require Import AssemblyB.Defs.
 Import ListNotations.
 
 Section Sums.
-Variable A : Type.
-Variables (r0 r1 : A) (radd rmul rsub : A -> A -> A) (ropp : A -> A).
-Hypothesis Rth : ring_theory r0 r1 radd rmul rsub ropp (@eq A).
-Add Ring ARing : Rth.
+Context {A : Type} {RO : ops A} {Hring : IsRing RO}.
+Notation r0 := (o0 RO).
+Notation r1 := (o1 RO).
+Notation radd := (oadd RO).
+Notation rmul := (omul RO).
+Notation rsub := (osub RO).
+Notation ropp := (oopp RO).
+Add Ring ARing : (@is_ring A RO Hring).
 
-Notation "0" := r0.
-Notation "1" := r1.
 Infix "+" := radd.
 Infix "*" := rmul.
 Infix "-" := rsub.
@@ -20,7 +22,7 @@ Notation sum := (sumf r0 radd).
 Notation sumN := (sumn r0 radd).
 Notation dl := (delta r0 r1).
 
-Lemma sum_nil : forall X (f : X -> A), sum f [] = 0.
+Lemma sum_nil : forall X (f : X -> A), sum f [] = r0.
 Proof. reflexivity. Qed.
 
 Lemma sum_cons : forall X (f : X -> A) x l, sum f (x :: l) = f x + sum f l.
@@ -38,11 +40,11 @@ Proof. intros. apply sum_ext. auto. Qed.
 Lemma sum_app : forall X (f : X -> A) l1 l2, sum f (l1 ++ l2) = sum f l1 + sum f l2.
 Proof. induction l1 as [|x l IH]; intros; simpl; [ring|]. rewrite IH. ring. Qed.
 
-Lemma sum_zero : forall X (l : list X), sum (fun _ => 0) l = 0.
+Lemma sum_zero : forall X (l : list X), sum (fun _ => r0) l = r0.
 Proof. induction l as [|x l IH]; simpl; [reflexivity|]. rewrite IH. ring. Qed.
 
-Lemma sum_zero_ext : forall X (f : X -> A) l, (forall x, In x l -> f x = 0) -> sum f l = 0.
-Proof. intros. rewrite (sum_ext _ f (fun _ => 0)); auto using sum_zero. Qed.
+Lemma sum_zero_ext : forall X (f : X -> A) l, (forall x, In x l -> f x = r0) -> sum f l = r0.
+Proof. intros. rewrite (sum_ext _ f (fun _ => r0)); auto using sum_zero. Qed.
 
 Lemma sum_add : forall X (f g : X -> A) l, sum (fun x => f x + g x) l = sum f l + sum g l.
 Proof. induction l as [|x l IH]; simpl; [ring|]. rewrite IH. ring. Qed.
@@ -80,11 +82,31 @@ Proof.
 Qed.
 
 Lemma sum_filter : forall X (p : X -> bool) (f : X -> A) l,
-  sum f (filter p l) = sum (fun x => if p x then f x else 0) l.
+  sum f (filter p l) = sum (fun x => if p x then f x else r0) l.
 Proof.
   induction l as [|x l IH]; simpl; [reflexivity|].
   destruct (p x); simpl; rewrite IH; ring.
 Qed.
+
+Global Instance sum_proper X (l : list X) : Proper (pointwise_relation X eq ==> eq) (fun f => sumf r0 radd f l).
+Proof. intros f g H. apply sum_ext_all. exact H. Qed.
+
+Lemma sum_sum_scal : forall X Y (c : A) (f : X -> Y -> A) l1 l2,
+  sum (fun x => sum (fun y => c * f x y) l2) l1 = c * sum (fun x => sum (fun y => f x y) l2) l1.
+Proof.
+  intros. rewrite <- sum_scal_l. apply sum_ext_all. intros. apply sum_scal_l.
+Qed.
+
+Lemma sum_sum_add : forall X Y (f g : X -> Y -> A) l1 l2,
+  sum (fun x => sum (fun y => f x y + g x y) l2) l1 =
+  sum (fun x => sum (fun y => f x y) l2) l1 + sum (fun x => sum (fun y => g x y) l2) l1.
+Proof.
+  intros. rewrite <- sum_add. apply sum_ext_all. intros. apply sum_add.
+Qed.
+
+Lemma sum_sum_ext : forall X Y (f g : X -> Y -> A) l1 l2, (forall x y, f x y = g x y) ->
+  sum (fun x => sum (fun y => f x y) l2) l1 = sum (fun x => sum (fun y => g x y) l2) l1.
+Proof. intros. apply sum_ext_all. intros. apply sum_ext_all. auto. Qed.
 
 (* partition of a list by a predicate: exact additivity *)
 Lemma sum_partition : forall X (p : X -> bool) (f : X -> A) l,
@@ -95,16 +117,16 @@ Proof.
 Qed.
 
 (* delta *)
-Lemma dl_same : forall a, dl a a = 1.
+Lemma dl_same : forall a, dl a a = r1.
 Proof. intros. unfold delta. rewrite Nat.eqb_refl. reflexivity. Qed.
 
-Lemma dl_diff : forall a b, a <> b -> dl a b = 0.
+Lemma dl_diff : forall a b, a <> b -> dl a b = r0.
 Proof. intros. unfold delta. destruct (Nat.eqb_spec a b); [contradiction|reflexivity]. Qed.
 
 Lemma dl_sym : forall a b, dl a b = dl b a.
 Proof. intros. unfold delta. rewrite Nat.eqb_sym. reflexivity. Qed.
 
-Lemma sum_delta_notin : forall (a : nat) (f : nat -> A) l, ~ In a l -> sum (fun x => dl x a * f x) l = 0.
+Lemma sum_delta_notin : forall (a : nat) (f : nat -> A) l, ~ In a l -> sum (fun x => dl x a * f x) l = r0.
 Proof.
   intros. apply sum_zero_ext. intros x Hx. rewrite dl_diff; [ring|]. intros ->. contradiction.
 Qed.
@@ -128,11 +150,11 @@ Proof.
   intros. rewrite <- (sum_delta_seq a n f H). unfold sumn. apply sum_ext_all. intros. rewrite dl_sym. reflexivity.
 Qed.
 
-Lemma sum_delta_seq_one : forall (a n : nat), a < n -> sumN n (fun x => dl a x) = 1.
+Lemma sum_delta_seq_one : forall (a n : nat), a < n -> sumN n (fun x => dl a x) = r1.
 Proof.
-  intros. transitivity (sumN n (fun x => dl a x * 1)).
+  intros. transitivity (sumN n (fun x => dl a x * r1)).
   - unfold sumn. apply sum_ext_all. intros. ring.
-  - apply (sum_delta_seq' a n (fun _ => 1)). assumption.
+  - apply (sum_delta_seq' a n (fun _ => r1)). assumption.
 Qed.
 
 (* entry of a triplet list, in delta form *)
@@ -147,7 +169,7 @@ Lemma entry_app : forall I J (t1 t2 : list (trip A)),
   entry r0 radd I J (t1 ++ t2) = entry r0 radd I J t1 + entry r0 radd I J t2.
 Proof. intros. unfold entry. apply sum_app. Qed.
 
-Lemma entry_nil : forall I J, entry r0 radd I J (@nil (trip A)) = 0.
+Lemma entry_nil : forall I J, entry r0 radd I J (@nil (trip A)) = r0.
 Proof. reflexivity. Qed.
 
 Lemma entry_flat_map : forall X I J (g : X -> list (trip A)) l,
@@ -172,7 +194,8 @@ Proof.
   transitivity (sumN n (fun J => sum (fun t => dl (t_row t) I * dl (t_col t) J * t_val t * x J) ts)).
   - unfold sumn. rewrite sum_swap. apply sum_ext. intros t Ht.
     rewrite (sum_ext_all _ _ (fun J => dl (t_col t) J * (dl (t_row t) I * t_val t * x J))) by (intros; ring).
-    rewrite (sum_delta_seq' (t_col t) n (fun J => dl (t_row t) I * t_val t * x J)) by auto.
+    pose proof (sum_delta_seq' (t_col t) n (fun J => dl (t_row t) I * t_val t * x J) (Hc t Ht)) as E.
+    unfold sumn in E. rewrite E. clear E.
     unfold delta. destruct (Nat.eqb (t_row t) I); ring.
   - unfold sumn. apply sum_ext_all. intros J. rewrite entry_delta, <- sum_scal_r. reflexivity.
 Qed.
